@@ -28,7 +28,7 @@ RULE = ("one generated source schema (harness/gen/schema.py + code-built resolve
         "schema for a type with and a type without registry entries in the source; one evaluation = one step checked; "
         "non-trivial = distinct (step kind, what it hid/added, schema shape) whose result differs from the source")
 ASSUMPTIONS = [
-    "visibility predicates are finite sets of hidden names (the theorems quantify over arbitrary predicates)",
+    "visibility predicates are finite sets of hidden names (the theorems quantify over arbitrary predicates); 40% of them also answer False for specified scalars / introspection type names (deny-lists naming them, allow-list style predicates): those are never hidden, whatever the predicate says - `VisP.isTypeVisible p n = isProtected n || p.typeVis n` in the model, `_is_type_visible` in the code - so input fields / arguments / fields of such types stay",
     "type object names are immutable (no modelled operation assigns .name of a NamedType), so a reference carries its target's name",
     "wrapper objects (ListType/NonNullType) are immutable values: only the identity of the named type at their base is tracked",
     "rare-but-valid names (single leading underscore, `_`+digits, one letter, case-only differences, keyword-like) are generated in the C14 world builder for ~45% of the sources; every such type references other user types and is referenced from Query",
@@ -240,6 +240,9 @@ def live_names(schema):
     return out
 
 
+INTROSPECTION_NAMES = ["__Schema", "__Type", "__Field", "__InputValue", "__EnumValue", "__Directive", "__TypeKind", "__DirectiveLocation"]
+
+
 def gen_visibility(rng, schema):
     from py_gql.schema import InputObjectType, InterfaceType, ObjectType, SPECIFIED_DIRECTIVES
     names = live_names(schema)
@@ -253,6 +256,16 @@ def gen_visibility(rng, schema):
         v["types"] = sorted(rng.sample(cand, rng.randint(1, min(2, len(cand)))))
     if rng.random() < 0.05 and roots:
         v["types"].append(sorted(roots)[0])
+    # predicates that also answer False for names the transform must never hide: a deny-list naming specified scalars /
+    # introspection types, or an ALLOW-list style predicate (`return name in EXPOSED`: False for every name that is not a user
+    # type the application exposes — all specified scalars and introspection types included)
+    k = rng.random()
+    if k < 0.2:
+        v["types"] = sorted(set(v["types"]) | set(rng.sample(W.SCALARS, rng.randint(1, 3))) | set(rng.sample(INTROSPECTION_NAMES, rng.randint(0, 2))))
+        v["style"] = "deny-list-naming-protected-types"
+    elif k < 0.4:
+        v["types"] = sorted(set(v["types"]) | set(W.SCALARS) | set(INTROSPECTION_NAMES))
+        v["style"] = "allow-list"
     fcand = [(n, f.name) for n, t in schema.types.items() if isinstance(t, (ObjectType, InterfaceType)) and not n.startswith("__")
              for f in t.fields]
     if fcand and rng.random() < 0.6:
@@ -674,6 +687,8 @@ def expected_effect(step):
             wrapped.update(v.get("wrap_ids", {}))
     if step["op"] == "replace":
         hid_t |= {n for n, m in step["entries"] if m == "delete"}
+    # specified scalars and introspection types are never hidden, whatever the predicate says (`_is_type_visible`)
+    hid_t -= set(W.SCALARS) | set(INTROSPECTION_NAMES)
     return hid_t, hid_f, hid_i, hid_d, (lambda n: table.get(n, n)) if table else (lambda n: n), wrapped, dropped
 
 
@@ -1270,6 +1285,9 @@ def one_sequence(ctx, seed_note, size, n_steps, steps=None, build_seed=None):
         record["steps"].append(step)
         model_steps.append(step)
         ctx.stat("step:%s:%s" % (_step_label(step), status.split(":")[0]))
+        for v in step.get("visitors", []):
+            if v.get("style"):
+                ctx.stat("visibility-predicate:%s:%s" % (v["style"], status.split(":")[0]))
         if step["op"] == "extend":
             e = step["ext"]
             targets = list(e["fields"]) + list(e["input_fields"]) + list(e["members"]) + list(e["values"])
@@ -1287,7 +1305,8 @@ def one_sequence(ctx, seed_note, size, n_steps, steps=None, build_seed=None):
                 found.append((sig, what))
 
         if status.startswith("rejected:") and step["op"] in ("clone", "transform", "inplace") and not any(
-                v.get("types") or v.get("fields") or v.get("inputs") or v.get("dirs") or v.get("drop") for v in step.get("visitors", [])):
+                [t for t in v.get("types", []) if t not in W.SCALARS and t not in INTROSPECTION_NAMES]
+                or v.get("fields") or v.get("inputs") or v.get("dirs") or v.get("drop") for v in step.get("visitors", [])):
             fail("step-raises:%s:rejected-without-removal:%s" % (step["op"], "+".join(v["k"] for v in step.get("visitors", []))),
                  "%s that removes nothing was rejected with %s (the source validates)" % (step["op"], status))
         if status.startswith("internal:"):
